@@ -33,7 +33,7 @@ Proof.
   destruct L as [ob [L B]]. rewrite L. cbn [is_some]. rewrite nf_exists. cbn [g_store]. rewrite L. cbn [is_some].
   unfold do_open, tick, no_faults. cbn [g_store g_calls g_trace]. rewrite L.
   unfold read_fallback, do_read, tick. cbn [g_store g_calls g_trace]. rewrite L. cbn [option_map].
-  destruct w, (body ob) as [|[|] ?|[|] ?|?| | |]; simpl in B; inversion B; subst; simpl; eauto.
+  destruct w, (body ob) as [|[|] ?|[|] ?|?| | | |? [|]]; simpl in B; inversion B; subst; simpl; eauto.
 Qed.
 
 Lemma read_all_nf : forall w ks g, (forall k, In k ks -> exists xs, holds w (g_store g) k xs) ->
@@ -126,7 +126,7 @@ Proof.
     pose proof (marker_targets_store _ _ _ _ _ _ _ ET) as S2. cbn [g_store] in S2.
     assert (TD: forall k0, In k0 T -> marker_denotes mp ob k0).
     { intros k0 Hk0. unfold marker_targets in ET. rewrite nf_read in ET. cbn [g_store] in ET. rewrite L in ET. cbn [option_map] in ET.
-      unfold marker_denotes. destruct (body ob) as [| | |[t|]| | |] eqn:B; try (inversion ET; subst; rewrite marker_fallback_covers in Hk0; exact Hk0).
+      unfold marker_denotes. destruct (body ob) as [| | |[t|]| | | |? ?] eqn:B; try (inversion ET; subst; rewrite marker_fallback_covers in Hk0; exact Hk0).
       destruct (nonempty t) eqn:N; inversion ET; subst.
       - destruct Hk0 as [<-|[]]. apply norm_wf_ref. unfold wf_ref. eapply name_candidates_relative. eapply W; eauto. split; assumption.
       - rewrite marker_fallback_covers in Hk0. exact Hk0. }
